@@ -14,7 +14,7 @@ from ..flow import Flow
 
 UTILS = "typhon/files/utils.py"
 ADVERTISED = {"gz": "gzip.GzipFile", "bz2": "bz2.BZ2File", "zip": "zipfile.ZipFile", "xz": "lzma.LZMAFile"}
-EXPECT = {"C12.table": 8, "C12.cleanup": 3, "C12.commit": 2, "C12.passthrough": 2, "C12.zipname": 3, "C12.writer": 2}
+EXPECT = {"C12.names": 2, "C12.table": 8, "C12.cleanup": 3, "C12.commit": 2, "C12.passthrough": 2, "C12.zipname": 3, "C12.writer": 2}
 
 WRITE_EFFECTS = {"remove", "unlink", "rename", "replace", "truncate", "mknod", "makedirs", "mkdir", "move",
                  "copy", "copy2", "copyfile", "rmtree", "touch", "write_text", "write_bytes", "rmdir", "symlink", "link"}
@@ -724,6 +724,42 @@ def rule_writer(ctx):
            "an explicit fmt= for a name without compression suffix still compresses", node=calls[0] if calls else f.node, func=f)
 
 
+def rule_names(ctx):
+    """Any file: the name may be path-like, the file may carry any modification time."""
+    ctx.rule("C12.names", "T1 api", "compress_as derives its default target from any path-like name and stores a file of any modification time in a zip archive")
+    from ..flow import guard_chain
+    ca = ctx.func(UTILS, "compress_as")
+    fn, fmt, tgt = ca.params[0], ca.params[1], ca.params[2]
+    flow = Flow(ca)
+    dflt = [st for st in flow.stmts if isinstance(st, ast.Assign) and str(norm(st.targets[0])) == tgt
+            and any(str(norm(t_)) in ("%s is None" % tgt,) and pol for t_, pol in guard_chain(st))]
+    if len(dflt) != 1:
+        raise AnalysisError("compress_as: the default target (target is None) was not found")
+    v = dflt[0].value
+    t_ = str(norm(v)).replace(" ", "").replace('"', "'")
+    good = ("'.'.join([os.fspath(%s),%s])" % (fn, fmt), "os.fspath(%s)+'.'+%s" % (fn, fmt), "'.'.join([str(%s),%s])" % (fn, fmt), "str(%s)+'.'+%s" % (fn, fmt),
+            "f'{%s}.{%s}'" % (fn, fmt), "'%%s.%%s'%%(%s,%s)" % (fn, fmt), "'{}.{}'.format(%s,%s)" % (fn, fmt))
+    bad = ("'.'.join([%s,%s])" % (fn, fmt), "%s+'.'+%s" % (fn, fmt))
+    if t_ not in good + bad:
+        raise AnalysisError("compress_as: default target %s not understood" % t_[:60])
+    ctx.ob("compress_as.default_target", t_ in good, "target = %s" % norm(v), "the name goes through os.fspath / str before it is joined with the format: "
+           "str.join and + accept str only, a pathlib.Path name (fine for compress, decompress and an explicit target) raised TypeError", node=dflt[0], func=ca,
+           witness=None if t_ in good else {"compress_as": "(Path('a.dat'), 'gz')", "raises": "TypeError"})
+    zc = []
+    for c in calls_in(ca.node):
+        nm = (dotted(c.func) or "").split(".")[-1]
+        if any(isinstance(a_, ast.Constant) and a_.value in ("w", "x") for a_ in c.args[1:2]) and any(
+                str(norm(t2_)).replace('"', "'") == "%s == 'zip'" % fmt and pol for t2_, pol in guard_chain(enclosing_stmt(c))):
+            zc.append(c)
+    if len(zc) != 1:
+        raise AnalysisError("compress_as: the zip archive opened for writing was not found")
+    kw = {k.arg: str(norm(k.value)) for k in zc[0].keywords}
+    okz = kw.get("strict_timestamps") == "False"
+    ctx.ob("compress_as.zip_timestamps", okz, "%s" % norm(zc[0]), "ZipFile(target, 'w', strict_timestamps=False): a file whose modification time lies outside 1980..2107 "
+           "(mtime 0 after copy2 / rsync -t) is stored with a clamped date instead of refusing to compress it - gz, bz2 and xz take the same file",
+           node=zc[0], func=ca, witness=None if okz else {"os.utime(src, (0, 0))": "compress_as(src, 'zip')", "raises": "ValueError: ZIP does not support timestamps before 1980"})
+
+
 def _write_mode_b(call):
     mode = call.args[1] if len(call.args) > 1 else None
     for k in call.keywords:
@@ -733,5 +769,5 @@ def _write_mode_b(call):
 
 
 def run(ctx):
-    for r in (rule_table, rule_cleanup, rule_commit, rule_passthrough, rule_zipname, rule_writer):
+    for r in (rule_table, rule_cleanup, rule_commit, rule_passthrough, rule_zipname, rule_writer, rule_names):
         ctx.attempt(r, ctx)
